@@ -92,6 +92,41 @@ pub mod wrappers;
 
 use computed::ScopedFuture;
 
+#[cfg(leptos_verif)]
+mod verif_hook {
+    use std::sync::{Arc, RwLock};
+
+    /// Callback invoked at every named yield point.
+    pub type VerifYieldCallback = Arc<dyn Fn(&'static str) + Send + Sync>;
+
+    static CALLBACK: RwLock<Option<VerifYieldCallback>> = RwLock::new(None);
+
+    /// Installs (or removes) the callback that is invoked at every named yield point.
+    /// Verification builds only (`--cfg leptos_verif`).
+    pub fn set_verif_yield_callback(callback: Option<VerifYieldCallback>) {
+        *CALLBACK.write().unwrap_or_else(|e| e.into_inner()) = callback;
+    }
+
+    /// A named yield point between two synchronisation steps: calls the installed
+    /// callback, and does nothing if none is installed.
+    /// Verification builds only (`--cfg leptos_verif`).
+    #[inline(never)]
+    pub fn verif_yield(name: &'static str) {
+        let callback = CALLBACK
+            .read()
+            .unwrap_or_else(|e| e.into_inner())
+            .as_ref()
+            .map(Arc::clone);
+        if let Some(callback) = callback {
+            callback(name);
+        }
+    }
+}
+#[cfg(leptos_verif)]
+pub use verif_hook::{
+    set_verif_yield_callback, verif_yield, VerifYieldCallback,
+};
+
 #[cfg(all(feature = "nightly", rustc_nightly))]
 mod nightly;
 
